@@ -190,11 +190,15 @@ class Expression(Node):
 
     """
 
-    def __init__(self, text, escapes, **kwargs):
+    def __init__(self, text, escapes, escapes_lineno_offset=0, **kwargs):
         super().__init__(**kwargs)
         self.text = text
         self.escapes = escapes
-        self.escapes_code = ast.ArgumentList(escapes, **self.exception_kwargs)
+        self.escapes_code = ast.ArgumentList(
+            escapes,
+            lineno_offset=escapes_lineno_offset,
+            **self.exception_kwargs,
+        )
         self.code = ast.PythonCode(text, **self.exception_kwargs)
 
     def declared_identifiers(self):
